@@ -1,0 +1,163 @@
+//! Verification hooks (feature `verif`) for the Celestia reader.
+//!
+//! Thin wrappers that forward to the real `decode_raw_blobs`, `verify_metadata` (with the real
+//! [`BlobVerifier`]) and `reconstruct_blocks_from_verified_blobs`. No production logic lives here.
+
+use std::sync::Arc;
+
+use astria_core::{
+    primitive::v1::RollupId,
+    sequencerblock::v1::{
+        SubmittedMetadata,
+        SubmittedRollupData,
+    },
+};
+use celestia_types::{
+    nmt::Namespace,
+    Blob,
+};
+use sequencer_client::{
+    tendermint::block::Height as SequencerHeight,
+    tendermint_rpc,
+};
+
+use super::{
+    convert::ConvertedBlobs,
+    decode_raw_blobs,
+    fetch::RawBlobs,
+    reconstruct_blocks_from_verified_blobs,
+    verify::{
+        VerifCometBftSource,
+        VerifiedBlobs,
+    },
+    verify_metadata,
+    BlobVerifier,
+    ReconstructedBlock,
+};
+use crate::state::StateReceiver;
+
+/// The output of the real `decode_raw_blobs`.
+pub(crate) struct Decoded(ConvertedBlobs);
+
+impl Decoded {
+    pub(crate) fn into_parts(self) -> (u64, Vec<SubmittedMetadata>, Vec<SubmittedRollupData>) {
+        self.0.into_parts()
+    }
+}
+
+/// Calls the real `decode_raw_blobs` on blobs as `fetch_new_blobs` would have returned them.
+pub(crate) fn decode(
+    celestia_height: u64,
+    metadata_blobs: Vec<Blob>,
+    rollup_blobs: Vec<Blob>,
+    rollup_namespace: Namespace,
+    sequencer_namespace: Namespace,
+) -> Decoded {
+    Decoded(decode_raw_blobs(
+        RawBlobs {
+            celestia_height,
+            header_blobs: metadata_blobs,
+            rollup_blobs,
+        },
+        rollup_namespace,
+        sequencer_namespace,
+    ))
+}
+
+/// Calls the real `reconstruct_blocks_from_verified_blobs`, treating every given metadata item
+/// as verified.
+pub(crate) fn reconstruct_assuming_verified_from_parts(
+    celestia_height: u64,
+    metadata: Vec<SubmittedMetadata>,
+    rollup_data: Vec<SubmittedRollupData>,
+    rollup_id: RollupId,
+) -> Vec<ReconstructedBlock> {
+    reconstruct_blocks_from_verified_blobs(
+        VerifiedBlobs::verif_assume_verified(celestia_height, metadata, rollup_data),
+        rollup_id,
+    )
+}
+
+/// The real [`BlobVerifier`] (cache included) on top of a harness supplied CometBFT source.
+#[derive(Clone)]
+pub(crate) struct Verifier(Arc<BlobVerifier>);
+
+struct Source<C, V> {
+    commit: C,
+    validators: V,
+}
+
+impl<C, V> VerifCometBftSource for Source<C, V>
+where
+    C: Fn(SequencerHeight) -> Result<tendermint_rpc::endpoint::commit::Response, tendermint_rpc::Error>
+        + Send
+        + Sync
+        + 'static,
+    V: Fn(
+            SequencerHeight,
+        ) -> Result<tendermint_rpc::endpoint::validators::Response, tendermint_rpc::Error>
+        + Send
+        + Sync
+        + 'static,
+{
+    fn commit(
+        &self,
+        height: SequencerHeight,
+    ) -> Result<tendermint_rpc::endpoint::commit::Response, tendermint_rpc::Error> {
+        (self.commit)(height)
+    }
+
+    fn validators(
+        &self,
+        height: SequencerHeight,
+    ) -> Result<tendermint_rpc::endpoint::validators::Response, tendermint_rpc::Error> {
+        (self.validators)(height)
+    }
+}
+
+impl Verifier {
+    pub(crate) fn new<C, V>(commit: C, validators: V) -> Self
+    where
+        C: Fn(
+                SequencerHeight,
+            ) -> Result<tendermint_rpc::endpoint::commit::Response, tendermint_rpc::Error>
+            + Send
+            + Sync
+            + 'static,
+        V: Fn(
+                SequencerHeight,
+            )
+                -> Result<tendermint_rpc::endpoint::validators::Response, tendermint_rpc::Error>
+            + Send
+            + Sync
+            + 'static,
+    {
+        Self(Arc::new(BlobVerifier::verif_with_source(Arc::new(Source {
+            commit,
+            validators,
+        }))))
+    }
+
+    /// The body of `FetchConvertVerifyAndReconstruct::execute` after the network fetch (without
+    /// metrics and `spawn_blocking`): real decode -> real `verify_metadata` -> real reconstruct.
+    pub(crate) async fn decode_verify_reconstruct(
+        &self,
+        celestia_height: u64,
+        metadata_blobs: Vec<Blob>,
+        rollup_blobs: Vec<Blob>,
+        rollup_namespace: Namespace,
+        sequencer_namespace: Namespace,
+        rollup_id: RollupId,
+        rollup_state: StateReceiver,
+    ) -> Vec<ReconstructedBlock> {
+        let Decoded(decoded_blobs) = decode(
+            celestia_height,
+            metadata_blobs,
+            rollup_blobs,
+            rollup_namespace,
+            sequencer_namespace,
+        );
+        let verified_blobs = verify_metadata(self.0.clone(), decoded_blobs, rollup_state).await;
+        reconstruct_blocks_from_verified_blobs(verified_blobs, rollup_id)
+    }
+}
